@@ -302,3 +302,15 @@ Proof.
     lia. }
   rewrite Hdd in Hc. cbv iota. destruct (three_squares delta) as [[[i j] k]|]; [eauto|discriminate].
 Qed.
+
+(* A range proof that passes the structure check has commitments C_i that are invertible modulo N: the degenerate
+   commitments (0 modulo N) with which the two relations of the proof hold vacuously, for any bound, are refused. *)
+Lemma range_commitments_are_units_lem pk s p :
+  verify_proof_structure pk s p = true ->
+  forall i, In i (zrange (rs_n s)) -> exists c, nth_ptr (rp_Cs p) i = Some c /\ Z.gcd c (pk_N pk) = 1.
+Proof.
+  unfold verify_proof_structure. intros H i Hi.
+  apply andb_true_iff in H as [_ H]. rewrite forallb_forall in H. specialize (H i Hi).
+  apply andb_true_iff in H as [_ H]. unfold coprime_ok in H.
+  destruct (nth_ptr (rp_Cs p) i) as [c|]; [|discriminate]. exists c. split; [reflexivity|now apply Z.eqb_eq].
+Qed.
